@@ -828,8 +828,12 @@ def model_requests(case, obs):
     if case["kind"] == "rt":
         if "file_written" not in obs:
             return []
-        return [dict(op="save", field=obs["state"]), dict(op="load", file=obs["file_written"]),
-                dict(op="loaded", field=obs["state"]), dict(op="roundtrip", field=obs["state"])]
+        reqs = [dict(op="save", field=obs["state"]), dict(op="load", file=obs["file_written"]),
+                dict(op="loaded", field=obs["state"]), dict(op="roundtrip", field=obs["state"]),
+                dict(op="inv", field=obs["state"])]
+        if "loaded" in obs:
+            reqs.append(dict(op="inv", field=obs["loaded"]))
+        return reqs
     if "file" not in obs:
         return []
     if obs["file"].get("version") is None:
@@ -959,7 +963,15 @@ def compare(case, obs, rs):
             cmp_state("legacy(documented)", obs["doc_state"], d["ok"], dis)
         return dis
     if case["kind"] == "rt":
-        saved, ld, spec, rtr = rs
+        saved, ld, spec, rtr, inv = rs[:5]
+        # the hypotheses of the round-trip theorems, evaluated on the state of the real field
+        if not inv["ok"]:
+            dis.append(f"theorem hypothesis Inv does not hold for the state of a field built by the real constructors "
+                       f"(region {inv['region']}, mesh {inv['mesh']})")
+        if len(rs) > 5 and not rs[5]["ok"]:
+            dis.append("theorem hypothesis Inv does not hold for the state of the field returned by from_file")
+        if inv["ok"] and inv["unit_ok"] and inv["exact"] and "loaded" in obs and obs["loaded"] != obs["state"]:
+            dis.append("hypotheses of h5_roundtrip (exact) hold but the field read back differs from the field written")
         cmp_file(obs["file_written"], saved["ok"], dis)
         exp = EXPECTED_LAYOUT + (SUBS_LAYOUT if obs["state"]["mesh"]["subs"] else [])
         if sorted(obs["layout"]) != sorted(exp):
@@ -976,7 +988,8 @@ def compare(case, obs, rs):
             dis.append(f"from_file: impl {obs['res']} vs model {'ok' if 'ok' in ld else ld}")
         elif "ok" in ld:
             cmp_state("from_file", obs["loaded"], ld["ok"], dis)
-            cmp_state("from_file vs spec loaded(f)", obs["loaded"], spec["ok"], dis)
+            if inv["ok"] and inv["unit_ok"]:   # hypotheses of h5_roundtrip_loaded
+                cmp_state("from_file vs spec loaded(f)", obs["loaded"], spec["ok"], dis)
         if "ok" not in rtr or (("ok" in ld) and rtr["ok"] != ld["ok"]):
             dis.append("model: h5Load (h5Save f) differs from h5Load of the h5py view")
         return dis
@@ -997,8 +1010,9 @@ def known(case, text):
         return "D21"
     if case["kind"] == "rt" and case.get("unit") == "None" and text.startswith("unit changed: 'None' -> None"):
         return "D22"
-    if case["kind"] == "rt" and case.get("dtype") in ("i8",) and case.get("bigint") and text.startswith("integer values changed"):
-        return "D23"
+    if case["kind"] == "rt" and case.get("dtype") in ("i8",) and case.get("bigint") and (
+            text.startswith("integer values changed") or ".array: values differ" in text):
+        return "D23"   # binary64 cannot hold the integer; the rational model can
     return None
 
 
